@@ -125,6 +125,11 @@ Theorem C13_down_vs_bindupdate_vs_pending_peers_writer_deadlocks :
 Proof. exact P.down_vs_bindupdate_vs_pending_peers_writer_deadlocks. Qed.
 Print Assumptions C13_down_vs_bindupdate_vs_pending_peers_writer_deadlocks.
 
+Theorem C13_down_vs_setprivatekey_vs_sender_rekey_deadlocks :
+  P.deadlocks P.f3d_threads (P.rep 2 18 ++ P.rep 0 18 ++ P.rep 1 5).
+Proof. exact P.down_vs_setprivatekey_vs_sender_rekey_deadlocks. Qed.
+Print Assumptions C13_down_vs_setprivatekey_vs_sender_rekey_deadlocks.
+
 Theorem C13_down_vs_setprivatekey_vs_retransmit_timer_deadlocks :
   P.deadlocks P.e2t_threads (P.rep 2 13 ++ P.rep 0 12 ++ P.rep 1 5).
 Proof. exact P.down_vs_setprivatekey_vs_retransmit_timer_deadlocks. Qed.
